@@ -347,8 +347,7 @@ theorem step_bytes (s : State) (op : Op) (h : Inv s) (r : Nat) (hp : Protected s
       split
       · rename_i reg hr
         split
-        · rename_i hc
-          exact setBytes_protected h hp (by simp [Op.targets]) hi rfl hr (canMutate_rc hc) (s' := setRegion s hd.region _) rfl
+        · rw [allocStd_bytes _ _ _ _ _ _ _ (by rw [dropSlot_length]; exact hlt), dropSlot_bytes]
         · rfl
       · rfl
     · rfl
@@ -502,9 +501,12 @@ theorem step_slots (s : State) (op : Op) (j : Nat) (hj : j ∉ op.targets) :
       · rfl
     · rfl
   | unaryMut i delta =>
+    simp only [Op.targets, List.mem_singleton] at hj
     simp only [step, opUnaryMut]; split
     · split
-      · split <;> rfl
+      · split
+        · rw [allocStd_slots _ _ _ _ _ _ _ hj, dropSlot_other _ _ _ hj]
+        · rfl
       · rfl
     · rfl
 
